@@ -78,14 +78,17 @@ def read_tables(path: Path | None = None) -> dict:
     missing = [t for t in list(TABLES) + ["_node_map"] if t not in found]
     if missing:
         raise TranslatorError(f"tables not found in expressions.py: {missing}")
-    # _build must still be the plain table lookup the model assumes
+    # _build must still be the table lookup the model assumes: in_subscript is dropped for every node that is not a
+    # tuple or a constant (Model/C03_expr.v: enter / keeps_insub), then the builder is looked up in _node_map
     fn = [n for n in tree.body if isinstance(n, ast.FunctionDef) and n.name == "_build"]
     if len(fn) != 1:
         raise TranslatorError("_build not found")
     body = [s for s in fn[0].body if not (isinstance(s, ast.Expr) and isinstance(s.value, ast.Constant))]
-    if not (len(body) == 1 and isinstance(body[0], ast.Return)
-            and ast.unparse(body[0].value) == "_node_map[type(node)](node, parent, **kwargs)"):
-        raise TranslatorError("_build is no longer `return _node_map[type(node)](node, parent, **kwargs)`")
+    expected = ["if not isinstance(node, (ast.Tuple, ast.Constant)):\n    kwargs.pop('in_subscript', None)",
+                "return _node_map[type(node)](node, parent, **kwargs)"]
+    if [ast.unparse(b) for b in body] != expected:
+        raise TranslatorError("_build is no longer `drop in_subscript unless Tuple/Constant; return _node_map[type(node)](node, parent, **kwargs)`: "
+                              + " | ".join(ast.unparse(b) for b in body)[:300])
     return found
 
 
